@@ -124,16 +124,16 @@ def explain(stream, fields, check):
             return "debversion-eq-digit-run-overflow"
         return None
     if stream == "rel-lossy-conv":
+        # rows 11 and 12 (lossless reader rejecting an epoch, architectures() dropping '!') are fixed in
+        # /repo (0eb8794, c2fa7c8, 541b0f5).  What is left: the lossless reader's version grammar is
+        # IDENT (COLON IDENT)*, so a version with an EMPTY colon-delimited segment ("7:1::2", "5::",
+        # "7:1:") is rejected there although debversion and the lossy reader accept it.
         rs = G.rels_of(fields[0])
         flat = [x for e in rs for x in e]
         if "#" in check:
             kind, i = check.split("#"); x = flat[int(i)]
-            neg = x["archs"] is not None and any(a.startswith("!") for a in x["archs"])
-            epoch = x["ver"] is not None and x["ver"][1] is not None
-            big = x["ver"] is not None and G.max_digit_run(x["ver"]) >= 2 ** 31
-            if kind == "ll-err" and epoch: return "lossless-reader-rejects-epoch"
-            if kind == "ll-diff" and neg and not epoch: return "lossless-accessor-drops-arch-negation"
-            if kind in ("ll-panic",) and big: return "debversion-eq-digit-run-overflow"
+            if kind == "ll-err" and x["ver"] is not None and "" in G.print_version(x["ver"]).split(":"):
+                return "lossless-reader-rejects-empty-colon-segment"
         return None
     return None
 
